@@ -1,0 +1,169 @@
+//go:build verif
+
+// Contracts for the deductive verifier in /verif (comment-only; never compiled into the library).
+
+package security
+
+//@ pkg github.com/bbockelm/cedar/security
+
+// ---- lock discipline (C17): which mutex protects which field ---------------------------------------------------
+//@ guarded_by security.SessionEntry.expiration security.SessionEntry.mu
+//@ guarded_by security.SessionEntry.lastPeerVersion security.SessionEntry.mu
+//@ guarded_by security.SessionEntry.inherited security.SessionEntry.mu
+//@ guarded_by security.SessionCache.sessions security.SessionCache.mu rw
+//@ guarded_by security.SessionCache.commandMap security.SessionCache.mu rw
+
+// ---- session cache (C06, C07, C17) ------------------------------------------------------------------------------
+//@ pred expiredAt(e, now) = !zeroTime(e.expiration.wall, e.expiration.ext) && now > instant(e.expiration.wall, e.expiration.ext)
+//@ pred cmdKey(tag, addr, cmd) = ite(tag != "", sprintf3("{%s,%s,<%s>}", boxs(tag), boxs(addr), boxs(cmd)), sprintf2("{%s,<%s>}", boxs(addr), boxs(cmd)))
+//@ pred cacheWF(c) = c.sessions != nil && c.commandMap != nil && !held(&c.mu) && rcount(&c.mu) == 0
+
+//@ func (*SessionEntry).IsExpired
+//@   props C06 C17
+//@   requires unlocked: !held(&s.mu)
+//@   assigns lock(&s.mu), clockNow
+//@   ensures verdict: result == expiredAt(s, clockNow)
+//@   ensures unlocked_after: !held(&s.mu)
+//@   ensures clock_monotone: clockNow >= old(clockNow)
+
+//@ func (*SessionEntry).RenewLease
+//@   props C06 C17
+//@   requires unlocked: !held(&s.mu)
+//@   assigns lock(&s.mu), clockNow, s.expiration
+//@   ensures forward_only: s.lease == 0 ==> s.expiration == old(s.expiration)
+//@   ensures renewed: s.lease != 0 ==> instant(s.expiration.wall, s.expiration.ext) == clockNow + s.lease
+//@   ensures unlocked_after: !held(&s.mu)
+
+//@ func (*SessionEntry).Expiration
+//@   props C17
+//@   requires unlocked: !held(&s.mu)
+//@   assigns lock(&s.mu)
+//@   ensures value: result == s.expiration
+//@   ensures unlocked_after: !held(&s.mu)
+
+//@ func NewSessionEntry
+//@   props C06 C07
+//@   assigns clockNow
+//@   ensures built: fresh(result) && result.id == id && result.addr == addr && result.keyInfo == keyInfo && result.policy == policy && result.expiration == expiration && result.lease == lease && result.tag == tag
+//@   ensures unlocked: !held(&result.mu)
+
+//@ func NewSessionCache
+//@   props C06 C07
+//@   assigns nothing
+//@   ensures empty: fresh(result) && result.sessions != nil && result.commandMap != nil && len(result.sessions) == 0 && len(result.commandMap) == 0
+
+//@ func (*SessionCache).Store
+//@   props C06 C07 C17
+//@   requires wf: cacheWF(c) && entry != nil
+//@   assigns lock(&c.mu), mapof(c.sessions)
+//@   ensures stored: has(c.sessions, entry.id) && c.sessions[entry.id] == entry
+//@   ensures others_kept: forall k :: k != entry.id ==> has(c.sessions, k) == old(has(c.sessions, k)) && c.sessions[k] == old(c.sessions[k])
+//@   ensures wf_kept: cacheWF(c)
+
+//@ func (*SessionCache).Lookup (c, id) (result, ok)
+//@   props C06 C17
+//@   requires wf: cacheWF(c) && (has(c.sessions, id) ==> c.sessions[id] != nil && !held(&c.sessions[id].mu))
+//@   assigns lock(&c.mu), clockNow, when(has(c.sessions, id), lock(&c.sessions[id].mu))
+//@   ensures hit: ok ==> has(c.sessions, id) && result == c.sessions[id] && !expiredAt(result, clockNow)
+//@   ensures miss: !ok ==> result == nil && (!has(c.sessions, id) || expiredAt(c.sessions[id], clockNow))
+//@   ensures wf_kept: cacheWF(c)
+
+//@ func (*SessionCache).LookupNonExpired (c, id) (result, ok)
+//@   props C06 C17
+//@   requires wf: cacheWF(c) && (has(c.sessions, id) ==> c.sessions[id] != nil && !held(&c.sessions[id].mu))
+//@   assigns lock(&c.mu), clockNow, mapof(c.sessions), when(has(c.sessions, id), lock(&c.sessions[id].mu))
+//@   ensures hit: [C06] ok ==> old(has(c.sessions, id)) && result == old(c.sessions[id]) && !expiredAt(result, clockNow) && has(c.sessions, id)
+//@   ensures miss: [C06] !ok ==> result == nil && (!old(has(c.sessions, id)) || expiredAt(old(c.sessions[id]), clockNow))
+//@   ensures expired_evicted: [C06] !ok ==> !has(c.sessions, id)
+//@   ensures others_kept: forall k :: k != id ==> has(c.sessions, k) == old(has(c.sessions, k)) && c.sessions[k] == old(c.sessions[k])
+//@   ensures wf_kept: cacheWF(c)
+
+//@ func (*SessionCache).MapCommand
+//@   props C07 C17
+//@   requires wf: cacheWF(c)
+//@   assigns lock(&c.mu), mapof(c.commandMap)
+//@   ensures mapped: has(c.commandMap, cmdKey(tag, addr, command)) && c.commandMap[cmdKey(tag, addr, command)] == sessionID
+//@   ensures others_kept: forall k :: k != cmdKey(tag, addr, command) ==> has(c.commandMap, k) == old(has(c.commandMap, k)) && c.commandMap[k] == old(c.commandMap[k])
+//@   ensures wf_kept: cacheWF(c)
+
+//@ func (*SessionCache).LookupByCommand (c, tag, addr, command) (result, ok)
+//@   props C07 C06 C17
+//@   requires wf: cacheWF(c) && forall k :: has(c.sessions, k) ==> c.sessions[k] != nil && !held(&c.sessions[k].mu)
+//@   assigns lock(&c.mu), clockNow, when(has(c.commandMap, cmdKey(tag, addr, command)) && has(c.sessions, c.commandMap[cmdKey(tag, addr, command)]), lock(&c.sessions[c.commandMap[cmdKey(tag, addr, command)]].mu))
+//@   let key = cmdKey(tag, addr, command)
+//@   ensures hit: [C07] ok ==> has(c.commandMap, key) && has(c.sessions, c.commandMap[key]) && result == c.sessions[c.commandMap[key]] && !expiredAt(result, clockNow)
+//@   ensures miss: !ok ==> result == nil
+//@   ensures wf_kept: cacheWF(c)
+
+//@ func (*SessionCache).Invalidate (c, id) (result)
+//@   props C06 C07 C17
+//@   requires wf: cacheWF(c)
+//@   assigns lock(&c.mu), mapof(c.sessions), mapof(c.commandMap)
+//@   loop 1 invariant locked: held(&c.mu) && c.sessions == old(c.sessions) && c.commandMap == old(c.commandMap) && !has(c.sessions, id)
+//@   loop 1 invariant settled: forall k :: visited(1, k) && has(c.commandMap, k) ==> c.commandMap[k] != id
+//@   loop 1 invariant others: forall k :: (has(c.commandMap, k) ==> old(has(c.commandMap, k)) && c.commandMap[k] == old(c.commandMap[k])) && (old(has(c.commandMap, k)) && old(c.commandMap[k]) != id ==> has(c.commandMap, k))
+//@   loop 1 invariant sessions_others: forall k :: k != id ==> has(c.sessions, k) == old(has(c.sessions, k)) && c.sessions[k] == old(c.sessions[k])
+//@   ensures gone: [C06 C07] !has(c.sessions, id)
+//@   ensures all_routes_removed: [C07] result ==> forall k :: has(c.commandMap, k) ==> c.commandMap[k] != id
+//@   ensures other_routes_kept: [C07] old(has(c.sessions, id)) ==> forall k :: old(has(c.commandMap, k)) && old(c.commandMap[k]) != id ==> has(c.commandMap, k) && c.commandMap[k] == old(c.commandMap[k])
+//@   ensures other_sessions_kept: forall k :: k != id ==> has(c.sessions, k) == old(has(c.sessions, k)) && c.sessions[k] == old(c.sessions[k])
+//@   ensures reported: result == old(has(c.sessions, id))
+//@   ensures wf_kept: cacheWF(c)
+
+//@ func (*SessionCache).InvalidateExpired (c) (result)
+//@   props C06 C07 C17
+//@   requires wf: cacheWF(c) && forall k :: has(c.sessions, k) ==> c.sessions[k] != nil && !held(&c.sessions[k].mu)
+//@   assigns lock(&c.mu), clockNow, mapof(c.sessions), mapof(c.commandMap), anylock()
+//@   loop 1 invariant locked: held(&c.mu) && c.sessions == old(c.sessions) && c.commandMap == old(c.commandMap) && count >= 0
+//@   loop 1 invariant only_removed: forall k :: has(c.sessions, k) ==> old(has(c.sessions, k)) && c.sessions[k] == old(c.sessions[k])
+//@   loop 1 invariant entries_unlocked: forall k :: old(has(c.sessions, k)) ==> !held(&old(c.sessions[k]).mu)
+//@   loop 2 invariant locked: held(&c.mu) && c.sessions == old(c.sessions) && c.commandMap == old(c.commandMap)
+//@   loop 2 invariant settled: forall k :: visited(2, k) && has(c.commandMap, k) ==> has(c.sessions, c.commandMap[k])
+//@   loop 2 invariant only_removed: forall k :: has(c.sessions, k) ==> old(has(c.sessions, k)) && c.sessions[k] == old(c.sessions[k])
+//@   ensures no_dangling_routes: [C07] forall k :: has(c.commandMap, k) ==> has(c.sessions, c.commandMap[k])
+//@   ensures only_removed: [C06] forall k :: has(c.sessions, k) ==> old(has(c.sessions, k)) && c.sessions[k] == old(c.sessions[k])
+//@   ensures wf_kept: cacheWF(c)
+
+//@ func (*SessionCache).Clear
+//@   props C06 C07 C17
+//@   requires wf: cacheWF(c)
+//@   assigns lock(&c.mu), c.sessions, c.commandMap
+//@   ensures emptied: len(c.sessions) == 0 && len(c.commandMap) == 0 && fresh(c.sessions) && fresh(c.commandMap)
+//@   ensures wf_kept: cacheWF(c)
+
+//@ func (*SessionCache).DebugDump
+//@   props C17
+//@   requires wf: cacheWF(c) && forall k :: has(c.sessions, k) ==> c.sessions[k] != nil && !held(&c.sessions[k].mu)
+//@   assigns lock(&c.mu), anylock()
+//@   ensures wf_kept: cacheWF(c)
+//@   loop 1 invariant read_locked: rcount(&c.mu) == 1 && !held(&c.mu)
+//@   loop 1 invariant entries_unlocked: forall k :: has(c.sessions, k) ==> c.sessions[k] != nil && !held(&c.sessions[k].mu)
+//@   loop 2 invariant read_locked: rcount(&c.mu) == 1 && !held(&c.mu)
+
+//@ func (*SessionCache).Size
+//@   props C17
+//@   requires wf: cacheWF(c)
+//@   assigns lock(&c.mu)
+//@   ensures size: result == len(c.sessions)
+//@   ensures wf_kept: cacheWF(c)
+
+//@ func (*SessionEntry).LastPeerVersion
+//@   props C17
+//@   requires unlocked: !held(&s.mu)
+//@   assigns lock(&s.mu)
+//@   ensures unlocked_after: !held(&s.mu)
+//@ func (*SessionEntry).SetLastPeerVersion
+//@   props C17
+//@   requires unlocked: !held(&s.mu)
+//@   assigns lock(&s.mu), s.lastPeerVersion
+//@   ensures set: s.lastPeerVersion == version && !held(&s.mu)
+//@ func (*SessionEntry).IsInherited
+//@   props C17
+//@   requires unlocked: !held(&s.mu)
+//@   assigns lock(&s.mu)
+//@   ensures unlocked_after: !held(&s.mu)
+//@ func (*SessionEntry).SetInherited
+//@   props C17
+//@   requires unlocked: !held(&s.mu)
+//@   assigns lock(&s.mu), s.inherited
+//@   ensures set: s.inherited == v && !held(&s.mu)
